@@ -369,7 +369,7 @@ UNITS = [
          doc="header lengths 65535 / 65536 / 70000 (the 32-bit length field) x corruptions"),
     Unit("signable", check_signable, strategy=_signable_cases, quick=800, thorough=30000,
          doc="verify_signable(gpg=True) counts an entry <=> it is a valid OpenPGP-mode signature"),
-    Unit("gnupg", check_gnupg, strategy=_gpg_cases, quick=12, thorough=300, shards_quick=4,
+    Unit("gnupg", check_gnupg, shrink=False, strategy=_gpg_cases, quick=12, thorough=300, shards_quick=4,
          doc="real gpg binary through the library's own signing path: accepted, filed under q, corruptions rejected"),
     Unit("gnupg_chain", check_gnupg_chain, enumerate=lambda tier: [
         {"version": v, "thr": t} for v in ([1, 41, 10 ** 6] + ([2, 3, 2 ** 40] if tier == "thorough" else [])) for t in (1, 2)],
